@@ -9,6 +9,7 @@ use bytes::Bytes;
 use faststr::FastStr;
 use serde::de::IgnoredAny;
 use serde::{Deserialize, Serialize};
+use sonic_rs::JsonValueMutTrait;
 use sonic_rs::{
     Deserializer, JsonContainerTrait, JsonValueTrait, LazyValue, Number, OwnedLazyValue, PointerNode, PointerTree,
     RawNumber, Value,
@@ -187,6 +188,29 @@ fn use_owned(o: &mut Obs, what: &str, lv: &OwnedLazyValue) {
     if let Ok(s) = sonic_rs::to_string(&c) {
         o.s(what, &s);
     }
+    // a value that was read (children cached) and is then reached through the mutable accessors
+    let mut m = lv.clone();
+    let _ = (m.get(0).map(|x| x.get_type()), m.get("a").map(|x| x.get_type()), m.as_array().map(|a| a.len()), m.as_object().map(|x| x.len()));
+    if let Some(x) = m.get_mut(0) {
+        let _ = x.take();
+    }
+    if let Some(x) = m.get_mut("a") {
+        *x = OwnedLazyValue::from(LazyValue::default());
+    }
+    if let Some(a) = m.as_array_mut() {
+        a.push(lv.clone());
+        a.truncate(3);
+    }
+    if let Some(ob) = m.as_object_mut() {
+        ob.append_pair(FastStr::new("k\"2"), lv.clone());
+    }
+    let _ = m.pointer_mut(&[PointerNode::Index(1), PointerNode::Key(FastStr::new("a"))]).map(|x| x.take());
+    if let Ok(s) = sonic_rs::to_string(&m) {
+        o.s(what, &s);
+    }
+    let t = m.take();
+    drop(m);
+    drop(t);
 }
 
 pub fn derive_paths(b: &[u8]) -> Vec<Vec<PointerNode>> {
